@@ -90,6 +90,46 @@ def r02_1(ctx, prog, crate):
             ctx.ok("R02.1", "%s|region|%s" % (b.path, _lbl(rec, s) if is_rec else "bb-order-%d" % st.index(s)),
                    {"body": b.path, "blocks": len(region), "measured": [m.name for m in measured]})
     ctx.anchor("R02.1", "timed regions (UntaggedTimestamp::start -> ::end)", regions, FLOOR_REGIONS)
+    # side conditions of the allow-list entries that consume an output inside the timed region:
+    #  * black_box_drop(output) (inputs-only path) is drop-free only if that path is selected exactly when !needs_drop::<O>()
+    #  * mem::forget(black_box(output)) (ZST path) never drops
+    if rec.body is not None:
+        from .C01 import only_inputs_is_not_needs_drop, generic_names
+        only_inputs_is_not_needs_drop(ctx, prog, crate, "R02.1")
+        b = rec.body
+        I, O = generic_names(b)
+        sl = [c for c in b.live_calls() if c.callee == "benchmark::defer::DeferStore::slots"]
+        for p in rec.paths:
+            uses_bbd = any(c.callee == "black_box_drop" for c in p.calls("timed"))
+            if not uses_bbd:
+                continue
+            # this path must be the Err (inputs-only) arm of slots()
+            ok = False
+            for c in sl:
+                for bi, t, base in __import__("lib.tables", fromlist=["x"]).discr_switches(b):
+                    if base == c.dest["l"] and not c.dest["proj"]:
+                        arms = {int(a[0]): a[1] for a in t["arms"]}
+                        err_t = arms.get(1)
+                        ok_t = arms.get(0)
+                        ok = err_t is not None and b.dominates(err_t, p.start.bb) and (ok_t is None or not b.dominates(ok_t, p.start.bb))
+            ctx.check(ok, "R02.1", [b.path, p.label, "black_box_drop-only-on-inputs-only-arm"],
+                      "black_box_drop(output) is used in a timed loop that is not the Err (outputs need no drop) arm of slots()", p.start.line())
+        sb = prog.body("benchmark::defer::DeferStore::slots", crate)
+        if sb is not None:
+            from lib import tables as _t
+            sw = [(bi, t) for bi, t in sb.switches() if any(s.kind == "const" and "ONLY_INPUTS" in str(s.a) + str(s.c) for s in sb.prov.op_src(t["discr"]))
+                  and not any(s.kind in ("unop", "binop") for s in sb.prov.op_src(t["discr"]))]
+            res = {}
+            if len(sw) == 1:
+                bi, t = sw[0]
+                zero = [x[1] for x in t["arms"] if x[0] == "0"][0]
+                for val, tgt, other in ((True, t["otherwise"], zero), (False, zero, t["otherwise"])):
+                    for x in _t.exclusive_blocks(sb, tgt, [other]):
+                        for s in sb.blocks[x]["stmts"]:
+                            if s["k"] == "assign" and s["p"]["l"] == 0 and s["rv"]["k"] == "agg":
+                                res[val] = s["rv"].get("variant")
+            ctx.check(res == {True: "Err", False: "Ok"}, "R02.1", ["DeferStore::slots", "Err-iff-ONLY_INPUTS"],
+                      "slots() returns %s; Err (inputs-only loop) must be returned exactly when ONLY_INPUTS" % res, sb.where(0))
     return rec
 
 
